@@ -259,6 +259,16 @@ def gen_tdigest(rng, tier, extra):
     h += extra(0, "post-merge", rng.randrange(2))
     h.append("td.updn 0 %d %d %d" % (rng.choice([1, 3, 17]), rng.randrange(1000), rng.randrange(6)))
     h += extra(0, "post-merge-buffered", 1)
+    if rng.random() < 0.35:
+        # total weight beyond 2^31 and 2^32 (reached by doubling: a digest merged with itself): every counter that is re-derived or
+        # narrowed on the way through an image shows here
+        # (tdigest<float> keeps 32-bit centroid weights, in memory and in the image: there the doubling stops while the total - and so
+        #  every centroid - is below 2^32; the double digest goes beyond 2^32)
+        import math
+        d = rng.choice([22, 24, 33]) if T == "d" else int(math.floor(math.log2(2 ** 32 / float(n + 4000))))      # (+4000: the values the checks themselves feed)
+        for _ in range(max(1, d)):
+            h.append("td.merge 0 0")
+        h += extra(0, "huge-weight", rng.randrange(2))
     return h
 
 
